@@ -183,6 +183,13 @@ func (e *Engine) wsCompute(fn *ssa.Function) *wset {
 			// closure value created locally?
 			if mc, ok := cc.Value.(*ssa.MakeClosure); ok {
 				callee = mc.Fn.(*ssa.Function)
+			} else if inner, ok := cc.Value.(*ssa.Call); ok && inner.Common().StaticCallee() != nil && len(inner.Common().StaticCallee().Blocks) > 0 {
+				// calling the function value returned by a static callee: one of its closures (already part of its write set)
+				cw := e.wsCompute(inner.Common().StaticCallee())
+				if w.add(cw) {
+					e.wsChanged = true
+				}
+				return
 			} else {
 				setTop("dynamic call in " + fn.String())
 				return
